@@ -392,6 +392,20 @@ pub fn run() {
                     let r = anemo::verif::simultaneous_dial_tie_breaking(&mk(t[1], pos), &mk(t[2], pos), o(t[3]), o(t[4]));
                     format!("{}", r as u8)
                 }
+                // backoff <step_ns> <max_ns> <n>: DialBackoffState::new then n-1 updates at a fixed instant
+                "backoff" => {
+                    let step = std::time::Duration::from_nanos(t[1].parse().unwrap());
+                    let maxb = std::time::Duration::from_nanos(t[2].parse().unwrap());
+                    let n: usize = t[3].parse().unwrap();
+                    let now = std::time::Instant::now();
+                    let mut b = anemo::verif::VerifBackoff::new(now, step, maxb);
+                    let mut out = vec![format!("{}:{}", b.attempts(), (b.backoff() - now).as_nanos())];
+                    for _ in 1..n {
+                        b.update(now, step, maxb);
+                        out.push(format!("{}:{}", b.attempts(), (b.backoff() - now).as_nanos()));
+                    }
+                    out.join(" ")
+                }
                 other => panic!("unknown activepeers case {other}"),
             }
         })
